@@ -51,6 +51,8 @@ pub struct SourceFile {
     pub(crate) path: PathBuf,
     pub(crate) source_text: String,
     pub(crate) source: OnceLock<ariadne::Source>,
+    /// Byte offsets at which lines start, per the GraphQL LineTerminator rule
+    pub(crate) line_starts: OnceLock<Vec<usize>>,
 }
 
 /// A map of source files relevant to a given document
@@ -176,6 +178,7 @@ impl Parser {
             path,
             source_text,
             source: OnceLock::new(),
+            line_starts: OnceLock::new(),
         });
         Arc::make_mut(&mut errors.sources).insert(file_id, source_file);
         for parser_error in tree.errors() {
@@ -443,7 +446,29 @@ impl SourceFile {
     ///
     /// Returns None if the offset is out of bounds.
     pub fn get_line_column(&self, offset: usize) -> Option<LineColumn> {
-        let (_, zero_indexed_line, zero_indexed_column) = self.ariadne().get_byte_line(offset)?;
+        let text = self.source_text.as_str();
+        if offset > text.len() {
+            return None;
+        }
+        // Lines are separated by a GraphQL LineTerminator: "\n", "\r\n" or "\r"
+        // <https://spec.graphql.org/October2021/#LineTerminator>
+        let line_starts = self.line_starts.get_or_init(|| {
+            let bytes = text.as_bytes();
+            let mut starts = vec![0];
+            for (i, &b) in bytes.iter().enumerate() {
+                if b == b'\n' || (b == b'\r' && bytes.get(i + 1) != Some(&b'\n')) {
+                    starts.push(i + 1);
+                }
+            }
+            starts
+        });
+        let zero_indexed_line = line_starts.partition_point(|&start| start <= offset) - 1;
+        let line_start = line_starts[zero_indexed_line];
+        // Columns count Unicode scalar values
+        let zero_indexed_column = text[line_start..]
+            .char_indices()
+            .take_while(|(i, _)| line_start + i < offset)
+            .count();
         Some(LineColumn {
             line: zero_indexed_line + 1,
             column: zero_indexed_column + 1,
@@ -466,6 +491,7 @@ impl std::fmt::Debug for SourceFile {
             path,
             source_text,
             source: _, // Skipped: it’s a cache and would make debugging other things noisy
+            line_starts: _,
         } = self;
         let mut debug_struct = f.debug_struct("SourceFile");
         debug_struct.field("path", path);
